@@ -34,7 +34,7 @@ for p in props:
             'text': getattr(mod, 'LEVEL_TEXT', None) or (
                 'Static analysis of /repo\'s current source (no execution): the structural clauses listed in the '
                 'evidence explanation are decided for every site of every anchor; each is a necessary condition of '
-                'the property. The runtime behaviour itself is not decided. ' + mod.EXPLANATION[:600]),
+                'the property. The runtime behaviour itself is not decided. ' + mod.EXPLANATION),
             'design_ref': 'DESIGN.md section 4, %s' % pid,
         },
         'level_note': 'NOT DECIDED: ' + mod.NOT_DECIDED + ' ASSUMED: ' + '; '.join(mod.ASSUMPTIONS),
